@@ -377,6 +377,6 @@ fn ob_c16_filtrate_loop(items: [u8; 3], vs: [u8; 3], len: u8) {
 //@ post: must FAIL
 fn ob_c13_filter_canary(r0: u8) {
     vassume!(r0 <= 2);
-    let out = mk_sep(r0, 0).filter_map_node(|x| x);
-    assert!(rank(&out) == 1, "canary");
+    let _ = mk_sep(r0, 0).filter_map_node(|x| x);
+    assert!(r0 != 1, "canary");
 }
